@@ -44,7 +44,11 @@ Inductive case :=
 | CCompl (cells : list (Z * option Z)) (impl : list (Z * Z * Z * Q))
 | CCvd (preds : list (list Z)) (impl : list (list Z * Z * Z * Q))
 | CHist (mn mx : Q) (nb : Z) (scores : list Q) (impl_bw : Q) (impl : list (Q * Z * Q))
-| CUnl (scores : list (Q * Q)) (impl : list (Q * Q * Q * Q)).
+| CUnl (scores : list (Q * Q)) (impl : list (Q * Q * Q * Q))
+| CProfile (col : list (option Z)) (impl_vf : list (Z * Z)) (totals : Z * Z * Z)
+           (impl_pc : list (Z * Z * Q * Q)) (ntop nbot : nat) (impl_top impl_bot : list (Z * Z)).
+Definition vf_in (col : list (option Z)) (x : Z * Z) : bool :=
+  existsb (fun r => Z.eqb (vf_value r) (fst x) && Z.eqb (value_count r) (snd x)) (value_frequencies col).
 
 Definition run_case (c : case) : bool :=
   match c with
@@ -73,6 +77,19 @@ Definition run_case (c : case) : bool :=
               match i with (w, p, pr, cum) =>
                 close t9 w (uc_weight m) && close t9 p (uc_prob m) && close t6 pr (uc_prop m)
                 && close t5 cum (cum_prop m) end) (unlinkables_data scores) impl
+  | CProfile col impl_vf totals impl_pc ntop nbot impl_top impl_bot =>
+      all2 (fun (m : vfrow) (i : Z * Z) => Z.eqb (vf_value m) (fst i) && Z.eqb (value_count m) (snd i))
+           (value_frequencies col) impl_vf &&
+      (match totals with (nn, tot, dist) =>
+         Z.eqb (total_non_null_rows col) nn && Z.eqb (total_rows_incl_nulls col) tot && Z.eqb (distinct_value_count col) dist end) &&
+      all2 (fun (m : pcrow) (i : Z * Z * Q * Q) =>
+              match i with (c, tok, pe, pi) =>
+                Z.eqb (pc_value_count m) c && Z.eqb (sum_tokens_in_value_count_group m) tok
+                && close t6 pe (percentile_ex_nulls m) && close t6 pi (percentile_inc_nulls m) end)
+           (percentiles col) impl_pc &&
+      all2 (fun (m : vfrow) (i : Z * Z) => Z.eqb (value_count m) (snd i)) (top_n ntop col) impl_top &&
+      all2 (fun (m : vfrow) (i : Z * Z) => Z.eqb (value_count m) (snd i)) (bottom_n nbot col) impl_bot &&
+      forallb (vf_in col) impl_top && forallb (vf_in col) impl_bot
   end.
 """
 
@@ -123,7 +140,7 @@ def gen_case(rng, backend):
     rules = rng.sample(ATOMS, rng.choice([0, 1, 2, 2]))
     return {"backend": backend, "link_type": lt, "names": names, "tables": tables, "comparisons": comps,
             "rules": rules, "prior": rng.choice([0.01, 0.1, 0.3, 0.5, 0.9]),
-            "num_bins": rng.choice([3, 5, 10, 30, 100]),
+            "num_bins": rng.choice([3, 5, 10, 30, 100]), "top_n": rng.choice([1, 2, 3, 10]), "bottom_n": rng.choice([1, 2, 10]),
             "completeness_cols": rng.choice([None, None, ["a"], ["b", "c"]])}
 
 
@@ -180,6 +197,20 @@ def run_impl(case):
                                                       num_example_rows=1)
         res["cvd"] = store["__splink__df_comparison_vector_distribution"][-1]
         res["hist"] = histogram_data(lk, dfp, case["num_bins"]).as_record_dict()
+    # profile_columns returns a chart only: the tables it computes are read by wrapping the DatabaseAPI
+    from splink.internals.profile_data import profile_columns
+    papi = su.make_api(case["backend"])
+    pcap = {}
+    porig = papi.sql_pipeline_to_splink_dataframe
+
+    def pwrapped(pipeline, use_cache=True):
+        sdf = porig(pipeline, use_cache)
+        pcap[sdf.templated_name] = sdf.as_record_dict()
+        return sdf
+    papi.sql_pipeline_to_splink_dataframe = pwrapped
+    profile_columns(frames_of(case), papi, column_expressions=list(COLS), top_n=case.get("top_n", 10),
+                    bottom_n=case.get("bottom_n", 10))
+    res["profile"] = pcap
     res["self_link"] = lk._self_link().as_record_dict()
     res["unlinkables"] = unlinkables_data(lk)
     return res
@@ -293,6 +324,57 @@ def build(case, res):
                 row = [i for i in impl if i[0] == d]
                 if len(row) != 1 or row[0][1] != tot - nn or row[0][2] != tot or abs(row[0][3] - Fraction(nn, tot)) > Fraction(1, 10**6):
                     bad.append(("completeness", f"column {col} dataset {case['names'][d]}: reported {row} but {nn} of {tot} cells are non-null"))
+    # ---- profile_columns
+    prof = res.get("profile")
+    if prof is not None:
+        need = ["__splink__df_all_column_value_frequencies", "__splink__df_percentiles", "__splink__df_top_n", "__splink__df_bottom_n"]
+        if any(k not in prof for k in need):
+            bad.append(("profile", f"tables computed by profile_columns: {sorted(prof)}"))
+        else:
+            ntop, nbot = case.get("top_n", 10), case.get("bottom_n", 10)
+            for col in COLS:
+                ids = value_ids(case, col)
+                colv = [None if r[col] is None else ids[r[col]] for _, r in rows]
+                nn = [v for v in colv if v is not None]
+                fr = {v: nn.count(v) for v in set(nn)}
+                vf = [x for x in prof[need[0]] if x["group_name"] == col]
+                pc = sorted((x for x in prof[need[1]] if x["group_name"] == col), key=lambda x: x["value_count"])
+                top = [x for x in prof[need[2]] if x["group_name"] == col]
+                bot = [x for x in prof[need[3]] if x["group_name"] == col]
+                ivf = sorted((ids.get(x["value"], -1), int(x["value_count"])) for x in vf)
+                tots = {(int(x["total_non_null_rows"]), int(x["total_rows_inc_nulls"]), int(x["distinct_value_count"])) for x in vf + pc}
+                if len(tots) != 1:
+                    bad.append(("profile", f"column {col}: inconsistent totals {tots}"))
+                    continue
+                tot = next(iter(tots))
+                ipc = [(int(x["value_count"]), int(x["sum_tokens_in_value_count_group"]), Fraction(x["percentile_ex_nulls"]),
+                        Fraction(x["percentile_inc_nulls"])) for x in pc]
+                itop = [(ids.get(x["value"], -1), int(x["value_count"])) for x in top]
+                ibot = [(ids.get(x["value"], -1), int(x["value_count"])) for x in bot]
+                zz = lambda ps: coq_list([f"({coq_Z(a)}, {coq_Z(b)})" for a, b in ps], "(Z * Z)")  # noqa: E731
+                terms.append(f"(CProfile {coq_list([coq_opt(v, coq_Z) for v in colv], '(option Z)')} {zz(ivf)} "
+                             f"({coq_Z(tot[0])}, {coq_Z(tot[1])}, {coq_Z(tot[2])}) "
+                             + coq_list([f"({coq_Z(a)}, {coq_Z(b)}, {coq_Q(c)}, {coq_Q(d)})" for a, b, c, d in ipc], "(Z * Z * Q * Q)")
+                             + f" {ntop}%nat {nbot}%nat {zz(itop)} {zz(ibot)})")
+                labels.append(("profile", col))
+                if dict(ivf) != fr or len(ivf) != len(fr):
+                    bad.append(("profile", f"column {col}: value counts {ivf} but the data has {sorted(fr.items())}"))
+                if tot != (len(nn), len(colv), len(fr)):
+                    bad.append(("profile", f"column {col}: totals {tot} but non-null/rows/distinct are {(len(nn), len(colv), len(fr))}"))
+                for c, tok, pe, pi in ipc:
+                    cum = sum(1 for v in nn if fr[v] >= c)
+                    exact = sum(1 for v in nn if fr[v] == c)
+                    if tok != exact or abs(pe - (1 - Fraction(cum, len(nn)))) > Fraction(1, 10**6) \
+                            or abs(pi - (1 - Fraction(cum, len(colv)))) > Fraction(1, 10**6):
+                        bad.append(("profile", f"column {col} count {c}: tokens {tok} percentiles {float(pe)}/{float(pi)} but {exact} cells have a "
+                                               f"value occurring exactly {c} times and {cum} of {len(nn)} non-null ({len(colv)} all) cells one occurring >= {c} times"))
+                if sorted(c for c, *_ in ipc) != sorted(set(fr.values())):
+                    bad.append(("profile", f"column {col}: percentile rows for counts {[c for c, *_ in ipc]} but distinct counts are {sorted(set(fr.values()))}"))
+                sizes = sorted(fr.values(), reverse=True)
+                if [c for _, c in itop] != sizes[:ntop] or [c for _, c in ibot] != sorted(fr.values())[:nbot]:
+                    bad.append(("profile", f"column {col}: top {itop} / bottom {ibot} but sorted counts are {sizes}"))
+                if any(fr.get(v) != c for v, c in itop + ibot):
+                    bad.append(("profile", f"column {col}: a listed top/bottom value is not a value of the data with that count"))
     # ---- pair-level outputs
     preds = res["predict"]
     gcols = [f"gamma_{c['col']}" for c in case["comparisons"]]
